@@ -7,8 +7,8 @@
             the specification tables (CtapSpec.v), by computation.
     Part S: status bytes (finite domain: 256-element sweeps lifted with [forallb_forall]). *)
 From Coq Require Import String Lia Sorted.
-From PK Require Import Lib.Cbor Lib.CborFacts Wire.Serde Wire.CtapSpec
-  Wire.gen.CtapSchema Wire.gen.Status Wire.gen.WebauthnError.
+From PK Require Import Lib.Cbor Lib.CborFacts Lib.Check Wire.Serde Wire.CtapSpec
+  Wire.gen.CtapSchema Wire.gen.Status Wire.gen.WebauthnError Wire.CtapCheck.
 Open Scope N_scope.
 
 (** * Lists *)
@@ -822,8 +822,6 @@ Qed.
 (** P3: the [options] member: absent altogether it is [up = true, rk = uv = false]; present with
     any subset of the three options, the missing ones take these defaults.  (27 = 3^3 cases:
     each option absent, false or true.) *)
-Definition bytes_of_string (s : string) : bytes := map Ascii.N_of_ascii (list_ascii_of_string s).
-
 Definition opt_states : list (option bool) := [None; Some false; Some true].
 
 Definition option_entries (given : list (string * option bool)) : list (cbor * cbor) :=
@@ -947,13 +945,6 @@ Qed.
 (** S3: what the client reports.  [authenticate]: "no credentials" becomes
     [CredentialNotFound], every other byte is passed through; [register]: every byte is passed
     through, 0x2E included *)
-Definition werr_eqb (a b : werr) : bool :=
-  match a, b with
-  | WAuthenticatorError x, WAuthenticatorError y => x =? y
-  | WNamed x, WNamed y => String.eqb x y
-  | _, _ => false
-  end.
-
 Lemma werr_eqb_eq a b : werr_eqb a b = true -> a = b.
 Proof.
   destruct a, b; cbn [werr_eqb]; try discriminate; intros H.
@@ -978,4 +969,149 @@ Proof.
     end) ltac:(vm_compute; reflexivity) b Hb) as H. cbn beta in H. rewrite Hs in H.
   apply andb_true_iff in H as [H H3]. apply andb_true_iff in H as [H1 H2].
   repeat split; apply werr_eqb_eq; assumption.
+Qed.
+
+(** * Part O: the model satisfies the oracle of [CtapCheck]
+
+    The oracle states C13 on one observation of the implementation using the specification
+    tables only.  These theorems say that the model's own observations always pass it: what the
+    check demands of the code is what is proved of the model. *)
+
+Fixpoint present_names (fs : list (fattr * kind)) (vals : list (option cbor)) : list string :=
+  match fs, vals with
+  | (f, _) :: fs', Some _ :: vals' => f_rust f :: present_names fs' vals'
+  | _ :: fs', None :: vals' => present_names fs' vals'
+  | _, _ => []
+  end.
+
+Fixpoint present_keys (fs : list (fattr * kind)) (vals : list (option cbor)) : list N :=
+  match fs, vals with
+  | (f, _) :: fs', Some _ :: vals' => f_key f :: present_keys fs' vals'
+  | _ :: fs', None :: vals' => present_keys fs' vals'
+  | _, _ => []
+  end.
+
+Lemma ser_keys_present fs : forall vals, wt_fields fs vals = true ->
+  map fst (ser_entries IntKeys (map fst fs) vals) = map (fun n => CInt (Z.of_N n)) (present_keys fs vals).
+Proof.
+  induction fs as [|[f k] fs IH]; intros [|v vals]; cbn [wt_fields map fst ser_entries present_keys]; try discriminate; [reflexivity|].
+  intros H. apply andb_true_iff in H as [H1 H2]. destruct v as [c|]; cbn [map fst key_of].
+  - rewrite (IH vals H2). reflexivity.
+  - unfold absent_ok in H1. apply andb_true_iff in H1 as [Hs _]. rewrite Hs. apply IH. exact H2.
+Qed.
+
+Lemma int_keys_back l : map_opt int_key (map (fun n => CInt (Z.of_N n)) l) = Some l.
+Proof.
+  induction l as [|n l IH]; cbn [map map_opt]; [reflexivity|]. rewrite IH. unfold int_key.
+  replace (0 <=? Z.of_N n)%Z with true by lia. rewrite N2Z.id. reflexivity.
+Qed.
+
+Lemma spec_numbers_present msg fs : In (msg, fs) ALL_MESSAGES ->
+  forall fs' vals, (forall fk, In fk fs' -> In fk fs) ->
+  map_opt (fun f => option_map fst (spec_of_field msg f)) (present_names fs' vals) = Some (present_keys fs' vals).
+Proof.
+  intros Hm. induction fs' as [|[f k] fs' IH]; intros [|v vals] Hsub; cbn [present_names present_keys map_opt]; try reflexivity.
+  assert (Hsub' : forall fk, In fk fs' -> In fk fs) by (intros fk H; apply Hsub; right; exact H).
+  destruct v as [c|]; [|apply IH; exact Hsub'].
+  cbn [map_opt]. rewrite (schema_field_spec msg fs f k Hm (Hsub _ (or_introl eq_refl))). cbn [option_map fst].
+  rewrite (IH vals Hsub'). reflexivity.
+Qed.
+
+Lemma present_keys_sub fs : forall vals n, In n (present_keys fs vals) -> In n (map (fun fk : fattr * kind => f_key (fst fk)) fs).
+Proof.
+  induction fs as [|[f k] fs IH]; intros [|v vals] n; cbn [present_keys map fst]; try (intros []).
+  destruct v as [c|].
+  - intros [E|H]; [left; exact E|right; eapply IH; exact H].
+  - intros H. right. eapply IH; exact H.
+Qed.
+
+Lemma present_keys_sorted fs : forall vals,
+  StronglySorted N.lt (map (fun fk : fattr * kind => f_key (fst fk)) fs) -> StronglySorted N.lt (present_keys fs vals).
+Proof.
+  induction fs as [|[f k] fs IH]; intros [|v vals] H; cbn [present_keys]; try constructor.
+  cbn [map fst] in H. inversion H as [|x l Hs Hall]. subst.
+  destruct v as [c|]; [|apply IH; exact Hs].
+  constructor; [apply IH; exact Hs|].
+  apply Forall_forall. intros n Hn. rewrite Forall_forall in Hall. apply Hall. eapply present_keys_sub. exact Hn.
+Qed.
+
+Lemma sorted_ascending l : StronglySorted N.lt l -> ascending l = true.
+Proof.
+  induction 1 as [|x l Hs IH Hall]; [reflexivity|]. destruct l as [|y l]; [reflexivity|].
+  change (ascending (x :: y :: l)) with ((x <? y) && ascending (y :: l)).
+  rewrite IH, andb_true_r. apply N.ltb_lt. inversion Hall. assumption.
+Qed.
+
+Lemma sorted_sort l : StronglySorted N.lt l -> sort_n l = l.
+Proof.
+  induction 1 as [|x l Hs IH Hall]; [reflexivity|]. unfold sort_n in *. cbn [fold_right]. rewrite IH.
+  destruct l as [|y l]; [reflexivity|]. cbn [insert_sorted].
+  inversion Hall as [|y0 l0 Hxy _]. subst. replace (x <=? y) with true by lia. reflexivity.
+Qed.
+
+Lemma list_eqb_refl l : list_eqb N.eqb l l = true.
+Proof. induction l as [|x l IH]; [reflexivity|]. cbn [list_eqb]. rewrite N.eqb_refl, IH. reflexivity. Qed.
+
+(** a member whose canonical value may be null (a raw CBOR value) is required, in every message *)
+Definition null_member_ok (msg : string) (fk : fattr * kind) : bool :=
+  negb (wt (snd fk) CNull && negb (is_opt (snd fk) && f_skip (fst fk)))
+  || required_number msg (CInt (Z.of_N (f_key (fst fk)))).
+
+Lemma null_members_required :
+  forallb (fun mf : string * list (fattr * kind) => forallb (null_member_ok (fst mf)) (snd mf)) ALL_MESSAGES = true.
+Proof. vm_compute. reflexivity. Qed.
+
+Lemma no_optional_null msg fs : In (msg, fs) ALL_MESSAGES ->
+  forall fs' vals, (forall fk, In fk fs' -> In fk fs) -> wt_fields fs' vals = true ->
+  forallb (fun kv : cbor * cbor => negb (is_null (snd kv)) || required_number msg (fst kv))
+          (ser_entries IntKeys (map fst fs') vals) = true.
+Proof.
+  intros Hm.
+  assert (Hn : forall fk, In fk fs -> null_member_ok msg fk = true).
+  { pose proof null_members_required as H. rewrite forallb_forall in H. specialize (H _ Hm). cbn [fst snd] in H.
+    rewrite forallb_forall in H. exact H. }
+  induction fs' as [|[f k] fs' IH]; intros [|v vals] Hsub; cbn [wt_fields map fst ser_entries forallb]; try discriminate; try reflexivity.
+  assert (Hsub' : forall fk, In fk fs' -> In fk fs) by (intros fk H; apply Hsub; right; exact H).
+  intros H. apply andb_true_iff in H as [H1 H2]. destruct v as [c|].
+  - cbn [forallb fst snd key_of]. rewrite (IH vals Hsub' H2), andb_true_r.
+    destruct c; try reflexivity. cbn [is_null negb orb].
+    specialize (Hn _ (Hsub _ (or_introl eq_refl))). unfold null_member_ok in Hn. cbn [fst snd] in Hn.
+    apply andb_true_iff in H1 as [Hw Hno]. rewrite Hw in Hn. cbn [is_null] in Hno. rewrite andb_true_r in Hno.
+    rewrite Hno in Hn. exact Hn.
+  - unfold absent_ok in H1. apply andb_true_iff in H1 as [Hs _]. rewrite Hs. apply IH; assumption.
+Qed.
+
+(** O1: whatever message value is serialised by the model, the observation passes the oracle *)
+Theorem model_passes_oracle_ser msg fs vals :
+  In (msg, fs) ALL_MESSAGES -> wt_fields fs vals = true ->
+  cbor_wf (ser_struct IntKeys (map fst fs) vals) = true ->
+  (depth (ser_struct IntKeys (map fst fs) vals) < cbor_fuel)%nat ->
+  oracle (CSer msg vals (present_names fs vals) (ser_msg fs vals)
+               (enc_opt (de_msg fs (ser_msg fs vals)))) = true.
+Proof.
+  intros Hm Hw Hwf Hd. cbn [oracle].
+  rewrite (message_round_trip msg fs vals Hm Hw Hwf Hd). cbn [enc_opt option_map].
+  fold (ser_msg fs vals). cbn [opt_eqb]. rewrite beq_refl, andb_true_r.
+  unfold wire_ok. unfold ser_msg at 1. rewrite decode_encode_read by assumption. unfold ser_struct at 1.
+  fold (ser_struct IntKeys (map fst fs) vals). fold (ser_msg fs vals). rewrite beq_refl. cbn [andb].
+  rewrite (ser_keys_present fs vals Hw), int_keys_back.
+  rewrite (spec_numbers_present msg fs Hm fs vals (fun fk H => H)).
+  assert (Hs : StronglySorted N.lt (present_keys fs vals)).
+  { apply present_keys_sorted. apply asc_sorted.
+    pose proof (schema_ok_of msg fs Hm) as S. cbn [schema_ok] in S.
+    apply andb_true_iff in S as [S _]. apply andb_true_iff in S as [S _]. apply andb_true_iff in S as [_ S]. exact S. }
+  rewrite (sorted_ascending _ Hs), (sorted_sort _ Hs), list_eqb_refl. cbn [andb].
+  apply (no_optional_null msg fs Hm fs vals (fun fk H => H) Hw).
+Qed.
+
+(** O2: every status byte, as the model converts it, passes the oracle *)
+Theorem model_passes_oracle_status b s : b < 256 -> status_of_byte b = Some s ->
+  oracle (CStatus b (class_name s) (variant_name s) (byte_of_status s)
+                  (webauthn_error_of_status s) (authenticate_error s) (register_error s)) = true.
+Proof.
+  intros Hb Hs. cbn [oracle].
+  destruct (status_round_trip b Hb) as [s' [E1 E2]]. rewrite Hs in E1. inversion E1. subst s'.
+  rewrite E2, N.eqb_refl. cbn [andb].
+  destruct (client_status_mapping b s Hb Hs) as [Ha _]. rewrite Ha.
+  destruct (b =? CTAP2_ERR_NO_CREDENTIALS); cbn [werr_eqb]; [apply String.eqb_refl|apply N.eqb_refl].
 Qed.
